@@ -24,6 +24,7 @@ import (
 	"github.com/cockroachdb/pebble/internal/keyspan"
 	"github.com/cockroachdb/pebble/internal/manifest"
 	"github.com/cockroachdb/pebble/internal/testkeys"
+	"github.com/cockroachdb/pebble/internal/treesteps"
 	"github.com/cockroachdb/pebble/internal/verif/vcommon"
 	"github.com/cockroachdb/pebble/objstorage"
 	"github.com/cockroachdb/pebble/objstorage/objstorageprovider"
@@ -179,10 +180,10 @@ func verifC33GenLayout(rng *rand.Rand) (lay verifC33Layout, pool []string, gs ve
 	pool = verifC33SortedUnique(pool)
 
 	pickSpan := func() (string, string) {
-		switch rng.IntN(6) {
-		case 0: // everything
+		switch x := rng.IntN(100); {
+		case x < 8: // everything
 			return pool[0], pool[len(pool)-1]
-		case 1: // narrow: two adjacent pool keys
+		case x < 45: // narrow: two adjacent pool keys (may cover nothing)
 			i := rng.IntN(len(pool) - 1)
 			return pool[i], pool[i+1]
 		}
@@ -205,7 +206,10 @@ func verifC33GenLayout(rng *rand.Rand) (lay verifC33Layout, pool []string, gs ve
 		shareSeqOK bool
 	}
 	nWrites := 3 + rng.IntN(60)
-	tombPct := []int{0, 10, 20, 20, 40}[rng.IntN(5)]
+	if rng.IntN(4) == 0 {
+		nWrites += rng.IntN(80)
+	}
+	tombPct := []int{0, 5, 10, 20, 40}[rng.IntN(5)]
 	seq := uint64(rng.IntN(3))
 	var writes []write
 	for i := 0; i < nWrites; i++ {
@@ -713,19 +717,146 @@ func (e *verifC33Env) newIters(
 	return set, nil
 }
 
+// verifC33SliceIter is a memtable-like child over a fixed slice. Unlike
+// base.FakeIter (whose TrySeekUsingNext handling asserts that the seek key lies
+// beyond the previous slice element, which does not hold once mergingIter has
+// seeked the level past a newer level's tombstone) it implements the flag the
+// way real children do: it never moves backwards.
+type verifC33SliceIter struct {
+	kvs          []base.InternalKV
+	idx          int
+	lower, upper []byte
+	prefix       []byte
+	strictPrefix bool // stop (return nil) at keys beyond the prefix, as FakeIter does
+}
+
+var _ base.InternalIterator = (*verifC33SliceIter)(nil)
+
+func (f *verifC33SliceIter) String() string { return "verifC33SliceIter" }
+
+func (f *verifC33SliceIter) at() *base.InternalKV {
+	if f.idx < 0 || f.idx >= len(f.kvs) {
+		return nil
+	}
+	return &f.kvs[f.idx]
+}
+
+func (f *verifC33SliceIter) SeekGE(key []byte, flags base.SeekGEFlags) *base.InternalKV {
+	f.prefix = nil
+	return f.seekGE(key, flags)
+}
+
+func (f *verifC33SliceIter) seekGE(key []byte, flags base.SeekGEFlags) *base.InternalKV {
+	start := 0
+	if flags.TrySeekUsingNext() && f.idx > 0 {
+		start = f.idx
+	}
+	f.idx = start
+	for f.idx < len(f.kvs) && verifC33Cmp(f.kvs[f.idx].K.UserKey, key) < 0 {
+		f.idx++
+	}
+	kv := f.at()
+	if kv != nil && f.upper != nil && verifC33Cmp(kv.K.UserKey, f.upper) >= 0 {
+		return nil
+	}
+	return kv
+}
+
+func (f *verifC33SliceIter) SeekPrefixGE(prefix, key []byte, flags base.SeekGEFlags) *base.InternalKV {
+	kv := f.seekGE(key, flags)
+	f.prefix = prefix
+	if kv != nil && f.strictPrefix && !bytes.Equal(verifC33Prefix(kv.K.UserKey), prefix) {
+		return nil
+	}
+	return kv
+}
+
+func (f *verifC33SliceIter) SeekLT(key []byte, _ base.SeekLTFlags) *base.InternalKV {
+	f.prefix = nil
+	f.idx = len(f.kvs) - 1
+	for f.idx >= 0 && verifC33Cmp(f.kvs[f.idx].K.UserKey, key) >= 0 {
+		f.idx--
+	}
+	kv := f.at()
+	if kv != nil && f.lower != nil && verifC33Cmp(kv.K.UserKey, f.lower) < 0 {
+		return nil
+	}
+	return kv
+}
+
+func (f *verifC33SliceIter) First() *base.InternalKV {
+	f.prefix = nil
+	f.idx = -1
+	return f.Next()
+}
+
+func (f *verifC33SliceIter) Last() *base.InternalKV {
+	f.prefix = nil
+	f.idx = len(f.kvs)
+	return f.Prev()
+}
+
+func (f *verifC33SliceIter) Next() *base.InternalKV {
+	if f.idx >= len(f.kvs) {
+		return nil
+	}
+	f.idx++
+	kv := f.at()
+	if kv == nil {
+		return nil
+	}
+	if f.upper != nil && verifC33Cmp(kv.K.UserKey, f.upper) >= 0 {
+		return nil
+	}
+	if f.prefix != nil && f.strictPrefix && !bytes.Equal(verifC33Prefix(kv.K.UserKey), f.prefix) {
+		return nil
+	}
+	return kv
+}
+
+func (f *verifC33SliceIter) NextPrefix(succKey []byte) *base.InternalKV {
+	return f.seekGE(succKey, base.SeekGEFlagsNone.EnableTrySeekUsingNext())
+}
+
+func (f *verifC33SliceIter) Prev() *base.InternalKV {
+	if f.idx < 0 {
+		return nil
+	}
+	f.idx--
+	kv := f.at()
+	if kv != nil && f.lower != nil && verifC33Cmp(kv.K.UserKey, f.lower) < 0 {
+		return nil
+	}
+	return kv
+}
+
+func (f *verifC33SliceIter) Error() error { return nil }
+func (f *verifC33SliceIter) Close() error { return nil }
+func (f *verifC33SliceIter) SetBounds(lower, upper []byte) {
+	f.lower, f.upper, f.prefix = lower, upper, nil
+}
+func (f *verifC33SliceIter) SetContext(context.Context) {}
+func (f *verifC33SliceIter) TreeStepsNode() treesteps.NodeInfo {
+	return treesteps.NodeInfof(f, "%T(%p)", f, f)
+}
+
 // newMerging builds the mergingIter the way (*Iterator).constructPointIter
 // does: memtable-like levels with their range-del iterator set up front,
 // levelIters wired to their mergingIterLevel through initRangeDel.
-func (e *verifC33Env) newMerging(lay *verifC33Layout, lower, upper []byte, snapshot base.SeqNum, wrap []bool, stats *base.InternalIteratorStats) *mergingIter {
+func (e *verifC33Env) newMerging(lay *verifC33Layout, lower, upper []byte, snapshot base.SeqNum, wrap []bool, fakeIter bool, strictPrefix []bool, stats *base.InternalIteratorStats) *mergingIter {
 	opts := IterOptions{LowerBound: lower, UpperBound: upper, logger: verifC33Logger{}}
 	mlevels := make([]mergingIterLevel, len(lay.Levels))
 	for l, lv := range lay.Levels {
 		var it internalIterator
 		switch lv.Kind {
 		case "fake":
-			f := base.NewFakeIter(testkeys.Comparer, e.fakeKVs[l])
-			f.SetBounds(lower, upper)
-			it = f
+			if fakeIter {
+				f := base.NewFakeIter(testkeys.Comparer, e.fakeKVs[l])
+				f.SetBounds(lower, upper)
+				it = f
+			} else {
+				it = &verifC33SliceIter{kvs: e.fakeKVs[l], lower: lower, upper: upper, strictPrefix: strictPrefix[l]}
+			}
 			if len(e.spans[l]) > 0 {
 				mlevels[l].rangeDelIter = keyspan.NewIter(verifC33Cmp, e.spans[l])
 			}
@@ -819,6 +950,9 @@ func (m *verifC33Model) clamp(k []byte) []byte {
 type verifC33Session struct {
 	Snapshot uint64       `json:"snapshot"`
 	Wrap     []bool       `json:"invalidating_wrap"`
+	// FakeIter: "fake" levels are base.FakeIter (else verifC33SliceIter).
+	FakeIter     bool   `json:"base_fake_iter"`
+	StrictPrefix []bool `json:"slice_iter_strict_prefix"`
 	Ops      []verifC33Op `json:"ops"`
 }
 
@@ -847,8 +981,10 @@ func verifC33RunSession(
 	ents []verifC33Ent, tombs []verifC33MTomb, nOps int, sess *verifC33Session,
 ) (compared int, class, detail string) {
 	snapshot := base.SeqNumMax
-	switch rng.IntN(5) {
-	case 0, 1:
+	switch x := rng.IntN(10); {
+	case x < 3: // cuts off the newest part of the history
+		snapshot = base.SeqNum(int(lay.MaxSeq) + 2 - rng.IntN(int(lay.MaxSeq)/2+2))
+	case x < 4:
 		snapshot = base.SeqNum(rng.IntN(int(lay.MaxSeq) + 3))
 	}
 	sess.Snapshot = uint64(snapshot)
@@ -859,18 +995,30 @@ func verifC33RunSession(
 	r.Count("entries_deleted_by_tombstone", int64(del))
 	r.Count("entries_visible", int64(len(model.all)))
 
-	randKey := func() []byte { return []byte(pool[rng.IntN(len(pool))]) }
+	poolKey := func() []byte { return []byte(pool[rng.IntN(len(pool))]) }
+	// Seek targets: mostly at or around an entry that exists at the snapshot
+	// (visible or not within the current bounds), else anywhere in the pool.
+	randKey := func() []byte {
+		if len(model.all) > 0 && rng.IntN(10) < 6 {
+			k := model.all[rng.IntN(len(model.all))].K
+			if rng.IntN(3) == 0 {
+				return append([]byte(nil), verifC33Prefix(k)...)
+			}
+			return append([]byte(nil), k...)
+		}
+		return poolKey()
+	}
 	randBounds := func() (lo, up []byte) {
 		switch rng.IntN(5) {
 		case 0, 1:
 			return nil, nil
 		case 2:
-			return randKey(), nil
+			return poolKey(), nil
 		case 3:
-			return nil, randKey()
+			return nil, poolKey()
 		}
 		for {
-			lo, up = randKey(), randKey()
+			lo, up = poolKey(), poolKey()
 			if c := verifC33Cmp(lo, up); c < 0 {
 				return lo, up
 			} else if c > 0 {
@@ -885,8 +1033,17 @@ func verifC33RunSession(
 	for i := range sess.Wrap {
 		sess.Wrap[i] = rng.IntN(3) == 0
 	}
+	// base.FakeIter asserts a stricter TrySeekUsingNext precondition than the
+	// contract (see verifC33SliceIter), so sessions that use it for the
+	// "fake" levels never set the flag.
+	sess.FakeIter = rng.IntN(4) == 0
+	allowTSUN := !sess.FakeIter
+	sess.StrictPrefix = make([]bool, len(lay.Levels))
+	for i := range sess.StrictPrefix {
+		sess.StrictPrefix[i] = rng.IntN(2) == 0
+	}
 	var stats base.InternalIteratorStats
-	iter := env.newMerging(lay, lower, upper, snapshot, sess.Wrap, &stats)
+	iter := env.newMerging(lay, lower, upper, snapshot, sess.Wrap, sess.FakeIter, sess.StrictPrefix, &stats)
 	closed := false
 	defer func() {
 		if !closed {
@@ -990,7 +1147,7 @@ func verifC33RunSession(
 					break
 				}
 			}
-			if m.lastSeek == 1 && verifC33Cmp(m.lastSeekKey, k) <= 0 && m.pos <= m.lb(k) && rng.IntN(4) != 0 {
+			if allowTSUN && m.lastSeek == 1 && verifC33Cmp(m.lastSeekKey, k) <= 0 && m.pos <= m.lb(k) && rng.IntN(4) != 0 {
 				flags = flags.EnableTrySeekUsingNext()
 				rec.TSUN = true
 			}
@@ -1034,7 +1191,7 @@ func verifC33RunSession(
 			}
 			p := verifC33Prefix(k)
 			flags := base.SeekGEFlagsNone
-			if m.lastSeek == 2 && verifC33Cmp(m.lastSeekKey, k) <= 0 && rng.IntN(4) != 0 {
+			if allowTSUN && m.lastSeek == 2 && verifC33Cmp(m.lastSeekKey, k) <= 0 && rng.IntN(4) != 0 {
 				same := bytes.Equal(m.prefix, p)
 				if !same || (!m.prefixDone && m.pos <= m.lb(k)) || (m.prefixDone && m.nexts == 0) {
 					flags = flags.EnableTrySeekUsingNext()
@@ -1150,7 +1307,7 @@ func TestVerifC33(t *testing.T) {
 		"with 25-100 contract-respecting ops each; distinct = distinct layout content; non-trivial = >= 2 levels holding entries, " +
 		">= 1 range tombstone or >= 2 files in a level, and >= 50 ops compared against the filter-and-sort model")
 	r.Assume("testkeys.Comparer ordering and Split; the sstable writer/reader, memTable and FakeIter children are the real ones and trusted to iterate their own content")
-	n := vcommon.Scale(1500, 60000)
+	n := vcommon.Scale(5000, 120000)
 	r.Cases(n, func(i int, rng *rand.Rand) {
 		lay, pool, gs := verifC33GenLayout(rng)
 		var sessions []*verifC33Session
